@@ -68,7 +68,7 @@ func c01Command(rc *RunCtx, t *simrt.Tape) {
 	in := filepath.Join(dir, "in"+ext+codecExt[codec])
 	os.WriteFile(in, compress(codec, fc.Text), 0644)
 	out := filepath.Join(dir, "out.fastx")
-	args := []string{"--max-cpu", fmt.Sprint(p.MaxCPU), "--batch-size", fmt.Sprint(p.BatchSize), "-o", out}
+	args := append(p.cpuArgs(), "-o", out)
 	spec := CmdSpec{Name: "obiconvert", Dir: dir, PoolPolicy: p.Pool, YieldDensity: p.Yield, StderrNull: p.ErrNull}
 	if p.Chunk > 0 {
 		spec.Knobs = map[string]int{"chunk": p.Chunk}
@@ -293,7 +293,7 @@ func c17Command(rc *RunCtx, t *simrt.Tape) {
 	// every command reads its input through the same entry point; three of them are run
 	cmdName := []string{"obiconvert", "obiconvert", "obigrep", "obiannotate"}[t.Choose(4)]
 	spec := CmdSpec{Name: cmdName, Dir: dir, PoolPolicy: p.Pool, YieldDensity: p.Yield, StderrNull: p.ErrNull}
-	args := []string{"--max-cpu", fmt.Sprint(p.MaxCPU), "--batch-size", fmt.Sprint(p.BatchSize), "-o", out}
+	args := append(p.cpuArgs(), "-o", out)
 	if cmdName == "obiannotate" {
 		args = append(args, "--length")
 	}
@@ -422,7 +422,7 @@ func c17StdinError(rc *RunCtx, t *simrt.Tape) {
 	defer cleanup(dir)
 	out := filepath.Join(dir, "out.fastx")
 	spec := CmdSpec{Name: "obiconvert", Dir: dir, PoolPolicy: p.Pool, YieldDensity: p.Yield, StderrNull: p.ErrNull,
-		Args: []string{"--max-cpu", fmt.Sprint(p.MaxCPU), "--batch-size", fmt.Sprint(p.BatchSize), "-o", out}}
+		Args: append(p.cpuArgs(), "-o", out)}
 	how := "directory"
 	k := 0
 	if t.Choose(3) == 0 {
@@ -479,7 +479,7 @@ func c18Command(rc *RunCtx, t *simrt.Tape) {
 		os.WriteFile(in, fastaText(recs, true), 0644)
 	}
 	p := drawParCfg(t, n)
-	args := []string{"--max-cpu", fmt.Sprint(p.MaxCPU), "--batch-size", fmt.Sprint(p.BatchSize)}
+	args := p.cpuArgs()
 	where := "stdout"
 	spec := CmdSpec{Name: name, Dir: dir, PoolPolicy: p.Pool, YieldDensity: p.Yield, StderrNull: p.ErrNull}
 	format := "fastx"
